@@ -494,7 +494,7 @@ class WorkTree:
             st = None
             try:
                 st = os.lstat(os.path.join(self.path, fs_path))
-            except FileNotFoundError:
+            except (FileNotFoundError, NotADirectoryError):
                 pass
 
             blob_obj = self._repo[tree_entry[1]]
